@@ -64,7 +64,7 @@ Definition check_script (sn : snapshot) (o : copts) (x : sobs) : bool :=
   let '(q, ops, out) := x in
   match compile sn o q with
   | Ok s =>
-      match run_script (loop_fuel sn (width_bound sn q)) (depth_fuel q) s ops with
+      match run_script (loop_fuel sn (swidth s)) (depth_fuel q) s ops with
       | Ok res => list_eqb (option_eqb Z.eqb) res out
       | _ => false
       end
